@@ -185,6 +185,24 @@ def gen_specs(ck, n):
     return specs
 
 
+def fixed_specs():
+    """scenario shapes that run on every run whatever the seed (the circumstances earlier seeded regressions needed)"""
+    out = []
+    for fault in ("stop_server", "disconnect", "stop_client", "remove_then_stop", "remove"):
+        for delay in (1.5, 3.0):
+            # calls abandoned after rpc_timeout stay in the connection's pending table, ahead of calls that still wait
+            out.append(dict(local=[], remote=[["slow_to", "ok"], ["slow_to", "exc"]], fault=fault, nb=[False, True, False],
+                            fault_delay=delay))
+        out.append(dict(local=[["ok", "exc"]], remote=[["ok", "badres", "ok"], ["badarg", "ok"]], fault=fault,
+                        nb=[True, False, True], fault_delay=0))
+    for nb in ([False, False, False], [True, True, False]):
+        # a value the receiver cannot unpickle: the connection is given up, every pending call must still end
+        out.append(dict(local=[["ok"]], remote=[["badload_arg", "ok"], ["ok", "ok"]], fault="none", nb=nb, fault_delay=0))
+        out.append(dict(local=[["ok"]], remote=[["ok", "badload_res"], ["ok", "ok"]], fault="none", nb=nb, fault_delay=0))
+        out.append(dict(local=[["badload_arg", "badload_res"]], remote=[["islocked", "ok"]], fault="none", nb=nb, fault_delay=0))
+    return out
+
+
 def run_specs(ck, specs, schedules_per_spec, fx=True):
     import qmi.core.context, qmi.core.rpc, qmi.core.messaging, qmi.core.pubsub, qmi.core.task, qmi.core.config_defs  # noqa
     jobs, meta = [], []
@@ -212,7 +230,7 @@ def run(ck, pid="C01"):
                       "sending on a connection whose peer has closed fails at once (fake network); orderly loss only",
                       "calls are made without rpc_timeout; a hang is detected by the scheduler as a deadlock"]
     nspec, per = (70, 6) if ck.tier == "quick" else (600, 12)
-    specs = gen_specs(ck, nspec)
+    specs = fixed_specs() + gen_specs(ck, nspec)
     terms, metas = [], []
     for sp, res in run_specs(ck, specs, per):
         ck.note_case((repr(sp), tuple(res.get("choices") or ())), True)
